@@ -9,7 +9,7 @@ import (
 // HTMLEscape will escape a string for HTML
 func HTMLEscape(s string, help hctx.HelperContext) (string, error) {
 	var err error
-	if help.HasBlock() {
+	if help != nil && help.HasBlock() {
 		s, err = help.Block()
 	}
 	if err != nil {
